@@ -21,7 +21,12 @@ type Rule struct {
 	Desc     string
 	Thorough bool // only in the thorough tier
 	Run      func(o *Ob)
+	Origin   string // for a cross-registered rule: the id it was registered under first
 }
+
+// obCache: results of rules by origin id, for runs that decide several properties in one process (the same rule
+// registered under several properties is evaluated once; the engine and the tree do not change within a process).
+var obCache = map[string]*Ob{}
 
 var registry []Rule
 
@@ -218,6 +223,23 @@ func runProperty(e *Eng, prop, tier, outDir, verifDir string, seed int64, start 
 			continue
 		}
 		nrules++
+		origin := r.Origin
+		if origin == "" {
+			origin = r.ID
+		}
+		if c, ok := obCache[origin]; ok && c.E == e {
+			cp := *c
+			cp.R = r
+			cp.Viol = nil
+			for _, v := range c.Viol {
+				v.Key = r.ID + strings.TrimPrefix(v.Key, c.R.ID)
+				v.Rule = r.ID
+				v.Known, v.Replay = false, ""
+				cp.Viol = append(cp.Viol, v)
+			}
+			obs = append(obs, &cp)
+			continue
+		}
 		o := &Ob{R: r, E: e}
 		func() {
 			defer func() {
@@ -244,6 +266,7 @@ func runProperty(e *Eng, prop, tier, outDir, verifDir string, seed int64, start 
 			o.fail("vacuous", fmt.Sprintf("only %d site(s) matched, floor is %d: the rule would pass vacuously", len(o.Sites), o.minSite), "?")
 			o.Checks++
 		}
+		obCache[origin] = o
 		obs = append(obs, o)
 	}
 	if nrules == 0 {
